@@ -825,7 +825,9 @@ fn replay(ctx: &Ctx, setup: &Setup, ops: &[Op]) -> Option<String> {
     None
 }
 
-/// greedy one-op-at-a-time removal preserving "the last op panics at the same site"
+/// greedy removal preserving "the last op panics at the same site" and the `run_app` grammar
+/// (a key is always preceded by a frame): a data op, a key, a frame that is not followed by a key,
+/// or a frame together with its key is removed at a time.
 fn shrink(ctx: &Ctx, setup: &Setup, ops: &[Op], site: &str) -> Vec<Op> {
     let mut cur: Vec<Op> = ops.to_vec();
     let mut progress = true;
@@ -836,7 +838,15 @@ fn shrink(ctx: &Ctx, setup: &Setup, ops: &[Op], site: &str) -> Vec<Op> {
         while i + 1 < cur.len() && budget > 0 {
             budget -= 1;
             let mut cand = cur.clone();
-            cand.remove(i);
+            let frame_then_key = matches!(cur[i], Op::Frame(..)) && matches!(cur.get(i + 1), Some(Op::Key(_)));
+            if frame_then_key {
+                if i + 2 >= cur.len() {
+                    break;
+                }
+                cand.drain(i..i + 2);
+            } else {
+                cand.remove(i);
+            }
             match replay(ctx, setup, &cand) {
                 Some(p) if panic_site(&p) == site => {
                     // the panic may now happen earlier: cut after the panicking op
@@ -1014,6 +1024,7 @@ fn run_case(run: &mut Run, ctx: &Ctx, tally: &mut Tally, setup: &Setup, ops: &[O
         }
     }
     run.count("cases");
+    let mut invalid_reported = false;
     for (i, op) in ops.iter().enumerate() {
         let res = if let Op::Frame(w, h) = op {
             // frame: also scan the screen
@@ -1045,7 +1056,8 @@ fn run_case(run: &mut Run, ctx: &Ctx, tally: &mut Tally, setup: &Setup, ops: &[O
                 run.op(live.request(op), show_app(&live.app, q));
                 if matches!(op, Op::Frame(..)) {
                     let bad = validity(&live.app);
-                    if !bad.is_empty() {
+                    if !bad.is_empty() && !invalid_reported {
+                        invalid_reported = true;
                         run.fail(
                             "c17-invalid",
                             format!("{label} {} ops: {} :: {}", setup.describe(), ops[..=i].iter().map(show_op).collect::<Vec<_>>().join(" | "), bad.join("; ")),
@@ -1177,6 +1189,49 @@ fn directed() -> Vec<(&'static str, Setup, Vec<Op>)> {
                 K("toggle_freeze"),
                 f(),
                 K("next_trace"),
+                f(),
+            ],
+        ),
+        // frozen: entering the flows view with a selected hop beyond the end of flow 1
+        (
+            "frozen-toggle-flows",
+            simple_setup(1, 64),
+            vec![
+                path(0, &[c(0), c(0)]),
+                path(0, &[c(1), c(1), c(1), c(1)]),
+                f(),
+                K("previous_hop"),
+                f(),
+                K("toggle_freeze"),
+                f(),
+                K("toggle_flows"),
+                f(),
+            ],
+        ),
+        // frozen: clear, select the last hop of the stale snapshot and its third address, then
+        // unfreeze over a shorter path: the hop is clamped but the address index is not
+        (
+            "stale-hop-address",
+            simple_setup(1, 1),
+            vec![
+                path(0, &[c(0), c(0), c(0), c(0)]),
+                path(0, &[c(0), c(0), c(0), c(1)]),
+                path(0, &[c(0), c(0), c(0), c(2)]),
+                f(),
+                K("toggle_freeze"),
+                f(),
+                K("clear_trace_data"),
+                f(),
+                K("previous_hop"),
+                f(),
+                K("next_hop_address"),
+                f(),
+                K("next_hop_address"),
+                f(),
+                path(0, &[c(0), c(0)]),
+                K("toggle_hop_details"),
+                f(),
+                K("toggle_freeze"),
                 f(),
             ],
         ),
